@@ -218,6 +218,58 @@ fn rerun_case(out: &mut Out, rng: &mut SplitMix64, vector: bool)
     }
 }
 
+/// The same operations through the C interface (`src/ffi.rs`): gates by name, circuit_measure with the collapse flag
+/// (0 = peek), circuit_measure_all, circuit_reset, circuit_execute, circuit_cstate.  Only the final register is visible
+/// there.  Valid operand lists only (a panic across the C ABI would abort the process).
+fn ffi_case(out: &mut Out, nq: usize, nc: usize, shots: usize, ops: &[Op])
+{
+    use q1tsim::ffi;
+    use std::os::raw::c_char;
+    #[repr(C)] #[derive(Clone, Copy)]
+    struct RawResult { data: *const std::os::raw::c_void, length: usize, size: usize, restype: u32 }
+    fn raw(r: ffi::CResult) -> RawResult { unsafe { std::mem::transmute::<ffi::CResult, RawResult>(r) } }
+    fn unraw(r: RawResult) -> ffi::CResult { unsafe { std::mem::transmute::<RawResult, ffi::CResult>(r) } }
+    let ok = |r: ffi::CResult| -> bool { let rr = raw(r); let good = rr.restype != 0; ffi::result_free(unraw(rr)); good };
+    let valid = ops.iter().all(|op| match op
+    {
+        Op::Gate(g, b) => *g != "CCX" && b.iter().all(|q| *q < nq),      // the C interface has no ccx
+        Op::Barrier(b) => b.iter().all(|q| *q < nq),
+        Op::Measure(q, c) | Op::Peek(q, c) => *q < nq && *c < nc.min(64),
+        // distinct target bits only (repeated ones are the known finding D14, reported by the `circ` requests)
+        Op::MeasureAll(cs) | Op::PeekAll(cs) => cs.len() == nq && cs.iter().all(|c| *c < nc.min(64)) && (0..cs.len()).all(|i| !cs[..i].contains(&cs[i])),
+        Op::Reset(q) => *q < nq, Op::ResetAll => true, Op::H(q) => *q < nq, Op::Cond(..) => false
+    });
+    if !valid || shots == 0 || nq == 0 { return; }
+    let c = ffi::circuit_new(nq, nc);
+    let mut all_ok = true;
+    for op in ops.iter()
+    {
+        let good = match op
+        {
+            Op::Gate(g, b) => { let n = std::ffi::CString::new(g.to_lowercase()).unwrap(); ok(ffi::circuit_add_gate(c, n.as_ptr(), b.as_ptr(), b.len(), std::ptr::null(), 0)) },
+            Op::H(q) => { let n = std::ffi::CString::new("h").unwrap(); let b = [*q]; ok(ffi::circuit_add_gate(c, n.as_ptr(), b.as_ptr(), 1, std::ptr::null(), 0)) },
+            Op::Measure(q, cb) => ok(ffi::circuit_measure(c, *q, *cb, 'z' as c_char, 1)),
+            Op::Peek(q, cb) => ok(ffi::circuit_measure(c, *q, *cb, 'z' as c_char, 0)),
+            Op::MeasureAll(cs) => ok(ffi::circuit_measure_all(c, cs.as_ptr(), cs.len(), 'z' as c_char, 1)),
+            Op::PeekAll(cs) => ok(ffi::circuit_measure_all(c, cs.as_ptr(), cs.len(), 'z' as c_char, 0)),
+            Op::Reset(q) => ok(ffi::circuit_reset(c, *q)),
+            Op::ResetAll => ok(ffi::circuit_reset_all(c)),
+            Op::Barrier(_) => true,      // no barrier in the C interface
+            Op::Cond(..) => false
+        };
+        all_ok &= good;
+    }
+    let ops_nobar: Vec<Op> = ops.iter().filter(|o| !matches!(o, Op::Barrier(_))).cloned().collect();
+    let req = format!("circffi a {} {} {} | {}", nq, nc, shots, ops_text(&ops_nobar));
+    let ans = if !all_ok { "err build".to_string() } else if !ok(ffi::circuit_execute(c, shots)) { "err run".to_string() } else {
+        let rr = raw(ffi::circuit_cstate(c));
+        let words: Option<Vec<u64>> = if rr.restype == 5 && !rr.data.is_null() { Some(unsafe { std::slice::from_raw_parts(rr.data as *const u64, rr.length) }.to_vec()) } else { None };
+        ffi::result_free(unraw(rr));
+        match words { Some(w) => format!("ok {}", ju(&w)), None => "err cstate".to_string() } };
+    ffi::circuit_free(c);
+    out.case(&req, &ans);
+}
+
 fn main()
 {
     let dir = std::env::args().nth(1).expect("usage: c08 <outdir>");
@@ -262,6 +314,7 @@ fn main()
         let malformed = rng.below(8) == 0;
         let ops = gen_ops(&mut rng, vector, nq, nc, malformed);
         circ_case(&mut out, vector, nq, nc, shots, &ops);
+        if !malformed && k % 4 == 0 { ffi_case(&mut out, nq, nc, shots, &ops); }
     }
 
     // histogram views on registers with genuinely different shots: H + measurements with a seeded
